@@ -350,7 +350,9 @@ package decimal
 //@   label U1+23 hint assert(R11 + R12*10000000000000000000 + (CX == 0 ? 0 : 1)*100000000000000000000000000000000000000 == old(x[SI]) + old(y[SI]) + (old(x[SI+1]) + old(y[SI+1]))*10000000000000000000 + (CX_0 == 0 ? 0 : 1) && R12 < B && (CX == 0 || CX == 18446744073709551615))
 //@   label U1+32 hint assert(R11 + R12*10000000000000000000 + R13*100000000000000000000000000000000000000 + (CX == 0 ? 0 : 1)*1000000000000000000000000000000000000000000000000000000000 == old(x[SI]) + old(y[SI]) + (old(x[SI+1]) + old(y[SI+1]))*10000000000000000000 + (old(x[SI+2]) + old(y[SI+2]))*100000000000000000000000000000000000000 + (CX_0 == 0 ? 0 : 1) && R13 < B && (CX == 0 || CX == 18446744073709551615))
 //@   label U1+41 hint forget(AX, BX, CX, R11, R12, R13, R14, R11 + R12*10000000000000000000 + R13*100000000000000000000000000000000000000 + R14*1000000000000000000000000000000000000000000000000000000000 + (CX == 0 ? 0 : 1)*10000000000000000000000000000000000000000000000000000000000000000000000000000 == old(x[SI]) + old(y[SI]) + (old(x[SI+1]) + old(y[SI+1]))*10000000000000000000 + (old(x[SI+2]) + old(y[SI+2]))*100000000000000000000000000000000000000 + (old(x[SI+3]) + old(y[SI+3]))*1000000000000000000000000000000000000000000000000000000000 + (CX_0 == 0 ? 0 : 1) && R11 < B && R12 < B && R13 < B && R14 < B && (CX == 0 || CX == 18446744073709551615))
-//@   label U1+46 hint assert(SI == SI_0 + 4 && z[SI-4] + z[SI-3]*10000000000000000000 + z[SI-2]*100000000000000000000000000000000000000 + z[SI-1]*1000000000000000000000000000000000000000000000000000000000 + (CX == 0 ? 0 : 1)*10000000000000000000000000000000000000000000000000000000000000000000000000000 == old(x[SI-4]) + old(y[SI-4]) + (old(x[SI-3]) + old(y[SI-3]))*10000000000000000000 + (old(x[SI-2]) + old(y[SI-2]))*100000000000000000000000000000000000000 + (old(x[SI-1]) + old(y[SI-1]))*1000000000000000000000000000000000000000000000000000000000 + (CX_0 == 0 ? 0 : 1))
+//@   label U1+46 hint assert(SI == SI_0 + 4 && SI <= len(z))
+//@   label U1+46 hint assert(z[SI-4] == R11 && z[SI-3] == R12 && z[SI-2] == R13 && z[SI-1] == R14)
+//@   label U1+46 hint assert(z[SI-4] + z[SI-3]*10000000000000000000 + z[SI-2]*100000000000000000000000000000000000000 + z[SI-1]*1000000000000000000000000000000000000000000000000000000000 + (CX == 0 ? 0 : 1)*10000000000000000000000000000000000000000000000000000000000000000000000000000 == old(x[SI-4]) + old(y[SI-4]) + (old(x[SI-3]) + old(y[SI-3]))*10000000000000000000 + (old(x[SI-2]) + old(y[SI-2]))*100000000000000000000000000000000000000 + (old(x[SI-1]) + old(y[SI-1]))*1000000000000000000000000000000000000000000000000000000000 + (CX_0 == 0 ? 0 : 1))
 //@   label U1+46 hint Vdef(z, 0, SI-1)
 //@   label U1+46 hint Vdef(z, 0, SI-2)
 //@   label U1+46 hint Vdef(z, 0, SI-3)
@@ -385,6 +387,7 @@ package decimal
 //@   label L1 modifies mem(z)
 //@   label E1+0 hint forget0(AX, BX, R11, R12, R13, R14, SI == len(z) && (CX == 0 || CX == 18446744073709551615) && wordsok(z) && V(z) + (CX == 0 ? 0 : 1)*P(len(z)) == old(V(x[:len(z)])) + old(V(y[:len(z)])))
 //@   label L1+11 hint forget(AX, BX, CX, R11, R11 + (CX == 0 ? 0 : 1)*10000000000000000000 == old(x[SI]) + old(y[SI]) + (CX_0 == 0 ? 0 : 1) && R11 < B && (CX == 0 || CX == 18446744073709551615))
+//@   label L1+13 hint assert(SI == SI_0 + 1 && SI <= len(z) && z[SI-1] == R11)
 //@   label L1+13 hint Vdef(z, 0, SI-1)
 //@   label L1+13 hint Vdef(old(x), 0, SI-1)
 //@   label L1+13 hint Vdef(old(y), 0, SI-1)
@@ -403,7 +406,9 @@ package decimal
 //@   label U2 invariant[rest]  forall k in SI..len(z) :: x[k] == old(x[k]) && y[k] == old(y[k])
 //@   label U2 modifies mem(z)
 //@   label U2+29 hint forget(AX, BX, CX, R11, R12, R13, R14, R11 + R12*10000000000000000000 + R13*100000000000000000000000000000000000000 + R14*1000000000000000000000000000000000000000000000000000000000 + old(y[SI]) + old(y[SI+1])*10000000000000000000 + old(y[SI+2])*100000000000000000000000000000000000000 + old(y[SI+3])*1000000000000000000000000000000000000000000000000000000000 + (CX_0 == 0 ? 0 : 1) == old(x[SI]) + old(x[SI+1])*10000000000000000000 + old(x[SI+2])*100000000000000000000000000000000000000 + old(x[SI+3])*1000000000000000000000000000000000000000000000000000000000 + (CX == 0 ? 0 : 1)*10000000000000000000000000000000000000000000000000000000000000000000000000000 && R11 < B && R12 < B && R13 < B && R14 < B && (CX == 0 || CX == 18446744073709551615))
-//@   label U2+34 hint assert(SI == SI_0 + 4 && z[SI-4] + z[SI-3]*10000000000000000000 + z[SI-2]*100000000000000000000000000000000000000 + z[SI-1]*1000000000000000000000000000000000000000000000000000000000 + old(y[SI-4]) + old(y[SI-3])*10000000000000000000 + old(y[SI-2])*100000000000000000000000000000000000000 + old(y[SI-1])*1000000000000000000000000000000000000000000000000000000000 + (CX_0 == 0 ? 0 : 1) == old(x[SI-4]) + old(x[SI-3])*10000000000000000000 + old(x[SI-2])*100000000000000000000000000000000000000 + old(x[SI-1])*1000000000000000000000000000000000000000000000000000000000 + (CX == 0 ? 0 : 1)*10000000000000000000000000000000000000000000000000000000000000000000000000000)
+//@   label U2+34 hint assert(SI == SI_0 + 4 && SI <= len(z))
+//@   label U2+34 hint assert(z[SI-4] == R11 && z[SI-3] == R12 && z[SI-2] == R13 && z[SI-1] == R14)
+//@   label U2+34 hint assert(z[SI-4] + z[SI-3]*10000000000000000000 + z[SI-2]*100000000000000000000000000000000000000 + z[SI-1]*1000000000000000000000000000000000000000000000000000000000 + old(y[SI-4]) + old(y[SI-3])*10000000000000000000 + old(y[SI-2])*100000000000000000000000000000000000000 + old(y[SI-1])*1000000000000000000000000000000000000000000000000000000000 + (CX_0 == 0 ? 0 : 1) == old(x[SI-4]) + old(x[SI-3])*10000000000000000000 + old(x[SI-2])*100000000000000000000000000000000000000 + old(x[SI-1])*1000000000000000000000000000000000000000000000000000000000 + (CX == 0 ? 0 : 1)*10000000000000000000000000000000000000000000000000000000000000000000000000000)
 //@   label U2+34 hint Vdef(z, 0, SI-1)
 //@   label U2+34 hint Vdef(z, 0, SI-2)
 //@   label U2+34 hint Vdef(z, 0, SI-3)
@@ -441,6 +446,7 @@ package decimal
 //@   label L2 modifies mem(z)
 //@   label E2+0 hint forget0(AX, BX, R11, R12, R13, R14, SI == len(z) && (CX == 0 || CX == 18446744073709551615) && wordsok(z) && V(z) + old(V(y[:len(z)])) == old(V(x[:len(z)])) + (CX == 0 ? 0 : 1)*P(len(z)))
 //@   label L2+8 hint forget(AX, BX, CX, R11, R11 + old(y[SI]) + (CX_0 == 0 ? 0 : 1) == old(x[SI]) + (CX == 0 ? 0 : 1)*10000000000000000000 && R11 < B && (CX == 0 || CX == 18446744073709551615))
+//@   label L2+10 hint assert(SI == SI_0 + 1 && SI <= len(z) && z[SI-1] == R11)
 //@   label L2+10 hint Vdef(z, 0, SI-1)
 //@   label L2+10 hint Vdef(old(x), 0, SI-1)
 //@   label L2+10 hint Vdef(old(y), 0, SI-1)
